@@ -111,10 +111,10 @@ def build(name, spec, X, seed=0):
         expect = {"dist": "kl", "mode": "ova", "A": None}
     elif name == "Kauri":
         tag = spec.get("kernel", "linear")
-        if tag in ("pre_psd", "pre_indef"):
+        if tag in ("pre_psd", "pre_indef", "pre_int"):
             kw["kernel"] = "precomputed"
-            y = aff.sym_matrix(len(X), seed, "psd" if tag == "pre_psd" else "indef")
-            expect = {"A": y}
+            y = aff.sym_matrix(len(X), seed, {"pre_psd": "psd", "pre_indef": "indef", "pre_int": "int"}[tag])
+            expect = {"A": np.asarray(y, dtype=float)}
         elif tag == "callable":
             kw["kernel"] = aff.my_kernel_pair
             expect = {"A": aff.my_kernel(X)}
